@@ -210,7 +210,7 @@ def handleDisc (op : String) (args : List String) : String :=
     let iv ← floatOfHex interval
     let off ← floatOfHex offset
     let r := (← callsOf calls).foldl (fun (acc : Smp Float × List String) c =>
-      let s := smpCall truncF iv off acc.1 c.1 c.2
+      let s := smpCall (fun x => x) iv off acc.1 c.1 c.2
       (s, (hexOfFloat s.v ++ ":" ++ bit s.rewind) :: acc.2)) (smpInit, [])
     pure (";".intercalate r.2.reverse ++ "|" ++ hexOfFloat r.1.lastV ++ " " ++ hexOfFloat r.1.lastT)
   | _, _ => "bad-op"
